@@ -341,7 +341,7 @@ func init() {
 							{[3]float64{139.70, 35.60, 10}, [3]float64{139.7005, 35.6004, 40}, 20, 20, 30},
 							{[3]float64{-0.2, 51.5, -5}, [3]float64{0.2, 51.6, 5}, 10, 22, 20000},
 							{[3]float64{100, -40, 100}, [3]float64{101, -60, 100}, 6, 3, 300000},
-							{[3]float64{11.25, 61.6063963713, 2.097152e6}, [3]float64{-45, 21.9430455334, 6.291456e6}, 4, 3, 3 * 357313.3603129548},
+							{[3]float64{11.25, 61.6063963713, 2.097152e6}, [3]float64{-45, 21.9430455334, 6.291456e6}, 4, 3, 357313.3603129548},
 						}
 						sg := segs[c.In("segment", len(segs))]
 						mode := c.In("mode", 5)
